@@ -1,20 +1,19 @@
 import Geo.Props.C01
 import Geo.Props.C01b
-open Geo
-#print axioms T01_1_join_P2P2_incident
-#print axioms T01_1_join_P2P2_cross
-#print axioms T01_2_meet_L2L2_incident
-#print axioms T01_8_unique_P2
-#print axioms T01_3_join_P3P3P3_incident
-#print axioms T01_3_join_P3P3P3_antisymm
-#print axioms T01_5_meet_EEE_incident
-#print axioms T01_4_join_P3P3_incident
-#print axioms T01_4_join_P3P3_plucker
-#print axioms join_P3P3_signed
-#print axioms T01_4_join_L3P3_eq_three
-#print axioms T01_6_meet_L3E
-#print axioms T01_6_point_on_plane
-#print axioms T01_5_meet_EE
-#print axioms T01_7_blinn_rank_one
-#print axioms T01_9_roundtrip_P2
-#print axioms T01_9_roundtrip_L2
+#print axioms Geo.T01_1_join_P2P2_incident
+#print axioms Geo.T01_1_join_P2P2_cross
+#print axioms Geo.T01_2_meet_L2L2_incident
+#print axioms Geo.T01_8_unique_P2
+#print axioms Geo.T01_3_join_P3P3P3_incident
+#print axioms Geo.T01_3_join_P3P3P3_antisymm
+#print axioms Geo.T01_5_meet_EEE_incident
+#print axioms Geo.T01_4_join_P3P3_incident
+#print axioms Geo.T01_4_join_P3P3_plucker
+#print axioms Geo.join_P3P3_signed
+#print axioms Geo.T01_4_join_L3P3_eq_three
+#print axioms Geo.T01_6_meet_L3E
+#print axioms Geo.T01_6_point_on_plane
+#print axioms Geo.T01_5_meet_EE
+#print axioms Geo.T01_7_blinn_rank_one
+#print axioms Geo.T01_9_roundtrip_P2
+#print axioms Geo.T01_9_roundtrip_L2
